@@ -24,12 +24,15 @@ RULE = ("3 of 4 runs: EVSE bench - one generated EVSE (continuous incl. min>0 / 
         "parameter shape, sequence of probe kinds)")
 PROBES = ["near_boundary_with_ev", "near_boundary_no_ev", "rejected", "accepted_edge", "nan_pilot", "advertised_value",
           "plugin_occupied", "world_invalid_pilot", "world_rejected_with_ev", "min_gt_zero_evse", "inf_max_evse", "advertised_inf_max",
-          "finite_without_zero", "finite_unsorted_or_dup"]
-FAULT_DIMENSION = "misbehaving scheduler: out-of-set pilot at an arbitrary call of a run (terminal fault, judged on the rejected station)"
+          "finite_without_zero", "finite_unsorted_or_dup", "twin_evses_world", "world_resume_json", "world_advertised_value",
+          "plugin_occupied_same_session_id"]
+FAULT_DIMENSION = ("misbehaving scheduler: out-of-set pilot at an arbitrary call of a run (terminal fault, judged on the rejected station); "
+                   "scheduler crash + JSON save/load (advertised limits must still be each station's own)")
 REAL_VS_STUB = "real: EVSE, DeadbandEVSE, FiniteRatesEVSE, EV, Battery models, ChargingNetwork, Interface, Simulator; ours: probing party"
 ASSUMPTIONS = ["accepted <=> dist(pilot, allowable set of the scenario) <= 1e-3, with a guard band of 1e-9 around exactly 1e-3 (inconclusive)",
                "a rejected pilot aborts the period half-way by design: only the rejected station is judged"]
-P_WORLD = world.profile(party={"scripted": 1}, faults={"invalid_pilot": 1.0}, evse_kinds={"cont": 3, "dead": 3, "finite": 3, "cont_inf": 1})
+P_WORLD = world.profile(party={"scripted": 1}, faults={"invalid_pilot": 1.0, "crash": 0.5}, resume_modes=["rerun", "json_str", "json_buf"],
+                        evse_kinds={"cont": 3, "dead": 3, "finite": 3, "cont_inf": 1}, stations=(2, 6))
 DELTAS = [0.0, 0.5e-3, -0.5e-3, 0.9e-3, -0.9e-3, 1.1e-3, -1.1e-3, 2e-3, -2e-3, 1.0, -1.0]
 
 
@@ -69,7 +72,22 @@ def dist(e, p):
 
 def gen(rs, tier):
     if rs % 4 == 0:
-        return world.gen_world(rs, P_WORLD)
+        sc = world.gen_world(rs, P_WORLD)
+        r = sub(rs, "twins")
+        st = sc["network"]["stations"]
+        if len(st) >= 2 and r.random() < 0.5:
+            # 'twin' EVSEs: same class, same minimum and maximum, different allowable sets in between
+            a, b = r.sample(range(len(st)), 2)
+            if r.random() < 0.5:
+                lo, hi = r.choice([6, 8]), r.choice([24, 32])
+                st[a]["evse"] = {"type": "Finite", "rates": [0, lo, hi]}
+                st[b]["evse"] = {"type": "Finite", "rates": [0, lo] + sorted(r.sample(range(lo + 1, hi), 3)) + [hi]}
+            else:
+                hi = r.choice([16, 32])
+                st[a]["evse"] = {"type": "Deadband", "deadband_end": 6, "max": hi}
+                st[b]["evse"] = {"type": "Deadband", "deadband_end": r.choice([4, 8, 10]), "max": hi}
+            sc["twins"] = [st[a]["id"], st[b]["id"]]
+        return sc
     r = sub(rs, "evse")
     kind = r.choice(["cont", "cont", "dead", "dead", "finite", "finite", "finite", "cont_inf", "cont_min"])
     if kind == "cont_min":
@@ -111,7 +129,7 @@ def gen(rs, tier):
         elif k < 0.92:
             ops.append({"op": "advertised"})
         elif k < 0.96 and ev is not None:
-            ops.append({"op": "plugin"})
+            ops.append({"op": "plugin", "same_id": r.random() < 0.4})
         elif ev is not None:
             ops.append({"op": "unplug"})
     return {"seed": rs, "evse": e, "ev": ev, "ops": ops, "voltage": r.choice([120, 208, 240]), "period": r.choice([1, 5, 15])}
@@ -215,6 +233,10 @@ def check(sc):
                     else:
                         out.probe("plugin_occupied")
                         intr = mk_ev(900 + i)
+                        if op.get("same_id"):
+                            # another EV object carrying the occupant's session id (a stale copy, a reloaded record)
+                            intr = sut.EV(0, 100, sc["ev"]["energy"], "X", cur_ev.session_id, build_battery(sc["ev"]["battery"]))
+                            out.probe("plugin_occupied_same_session_id")
                         try:
                             evse.plugin(intr)
                             out.add("C13/plugin_occupied_accepted", "op %d: plugin into an occupied station succeeded" % i)
@@ -242,9 +264,34 @@ def check(sc):
 
 
 def check_world(sc):
-    tr = driver.run_world(sc, observe=0)
+    tr = driver.run_world(sc, observe=2)
     out = base_outcome(tr)
     st = {s["id"]: s for s in sc["network"]["stations"]}
+    if sc.get("twins"):
+        out.probe("twin_evses_world")
+    out.probe("world_resume_json", sum(1 for r_ in tr.resumes if r_["mode"] != "rerun"))
+    # what the network / interface advertise for every station, at every call, is that station's own allowable set
+    for c in tr.calls:
+        ps = c.get("per_station")
+        if not ps or out.viol:
+            continue
+        for sid, q in ps.items():
+            e = st[sid]["evse"]
+            vals = [q["max"], q["min"]] + [float(a) for a in q["allow"][1]]
+            out.probe("world_advertised_value", len(vals))
+            for v in vals:
+                if e["type"] == "Deadband" and v == q["min"] and v == 0:
+                    continue
+                if dist(e, v) > 1e-3 + 1e-9:
+                    out.add("C13/world_advertised_not_allowable", "t=%d station %s is advertised %r (max %r, min %r, allowable %s) but its EVSE %s "
+                            "would reject it" % (c["t"], sid, v, q["max"], q["min"], q["allow"], e))
+                    break
+            if out.viol:
+                break
+            want = boundaries(e) if e["type"] == "Finite" else None
+            if want is not None and [float(a) for a in q["allow"][1]] != [float(a) for a in want]:
+                out.add("C13/world_advertised_levels", "t=%d station %s is advertised levels %s, its EVSE has %s" % (c["t"], sid, q["allow"][1], want))
+                break
     inv_calls = [c for c in tr.calls if c.get("invalid")]
     for c in inv_calls:
         out.probe("world_invalid_pilot")
